@@ -159,6 +159,29 @@ def judge_l1(case):
     return core.result("judged" + (":K1" if any(w["known"] for w in v) else ""), digest=core.digest_of(case), viol=v)
 
 
+def judge_l1b(case):
+    """flux solver with exactly ONE of the two optional permeances supplied: the relabelled twin supplies the other one."""
+    mix = U.get_mixture(case["mixture"])
+    t, x, model, P = case["T"], case["x"], case["model"], case["P"]
+    mode = tuple(case["mode"]) if case["mode"] != "vac" else "vac"
+    kw = U.permeate_kwargs(mode, t)
+    a, b = pv_pair(mix, P, t)
+    over = U.Permeance(value=case["override"])
+    which = case["which"]
+    ka = {"first_component_permeance": over} if which == 0 else {"second_component_permeance": over}
+    kb = {"second_component_permeance": over} if which == 0 else {"first_component_permeance": over}
+    sa, ja = core.call(a.calculate_partial_fluxes, feed_temperature=t, composition=U.Composition(p=x, type="weight"), precision=PREC, calculation_type=model, **ka, **kw)
+    sb, jb = core.call(b.calculate_partial_fluxes, feed_temperature=t, composition=U.Composition(p=1 - x, type="weight"), precision=PREC, calculation_type=model, **kb, **kw)
+    if sa != "ok" or sb != "ok" or not all(float(j) > 0 for j in (ja[0], ja[1], jb[0], jb[1])):
+        return core.result("not-judged", nontrivial=False)
+    v = []
+    tot = abs(float(ja[0])) + abs(float(ja[1]))
+    if not (core.close(float(ja[0]), float(jb[1]), TWIN_TOL, 1e-9 * tot) and core.close(float(ja[1]), float(jb[0]), TWIN_TOL, 1e-9 * tot)):
+        v.append(core.viol("C06/L1/one_permeance_supplied/" + model, "only the %s component's permeance supplied: fluxes %r, relabelled twin %r" % (
+            "first" if which == 0 else "second", (float(ja[0]), float(ja[1])), (float(jb[0]), float(jb[1])))))
+    return core.result("judged", digest=core.digest_of(case), viol=v)
+
+
 def judge_l2(case):
     mix = U.get_mixture(case["mixture"])
     t, model, P = case["T"], case["model"], case["P"]
@@ -342,6 +365,8 @@ def main(tier, seed):
     modes = ["vac", ("T", -60.0), ("T", -20.0), ("p", 0.5), ("p", 5.0)] if q else ["vac", ("T", 120.0), ("T", -60.0), ("T", -20.0), ("p", 0.0), ("p", 0.5), ("p", 5.0)]
     Ps = [(1e-2, 1e-4), (1e-4, 1e-2)] if q else [(1e-2, 1e-4), (1e-3, 1e-3), (1e-4, 1e-2), (1.0, 1e-6)]
     core.run_space(rep, core.Space("L1_solver", {"mixture": mixes, "model": ["NRTL", "UNIQUAC"], "mode": modes, "P": Ps, "T": ts[:2] if q else ts, "x": xs}, ok), judge_l1)
+    core.run_space(rep, core.Space("L1b_one_permeance_supplied", {"mixture": [m for m in mixes if U.get_mixture(m).nrtl_params is not None], "model": ["NRTL"],
+                                                                 "mode": modes[:3], "P": Ps[:1], "T": ts[:1], "x": xs[1:4], "which": [0, 1], "override": [3.3e-2, 7.7e-5]}), judge_l1b)
     core.run_space(rep, core.Space("L2_curves", {"mixture": mixes, "model": ["NRTL", "UNIQUAC"], "mode": modes, "P": Ps, "T": ts[:2] if q else ts[1:6],
                                                  "xs": [xs[:3], xs[2:]]}, ok), judge_l2)
     un = [U.Units.kg_m2_h_kPa, "SI", "GPU"]
@@ -357,7 +382,7 @@ def main(tier, seed):
 
 
 def replay(body):
-    fn = {"L0_thermodynamics": judge_l0, "L1_solver": judge_l1, "L2_curves": judge_l2, "L2b_curves_from_permeances": judge_l2b, "L3_ideal_traces": judge_l3}[body["space"]]
+    fn = {"L0_thermodynamics": judge_l0, "L1_solver": judge_l1, "L1b_one_permeance_supplied": judge_l1b, "L2_curves": judge_l2, "L2b_curves_from_permeances": judge_l2b, "L3_ideal_traces": judge_l3}[body["space"]]
     r = fn(body["case"])
     for v in r["viol"]:
         print("violation key=%s%s: %s" % (v["key"], " [known %s]" % v["known"] if v["known"] else "", v["msg"]))
